@@ -1505,7 +1505,7 @@ def main(run):
                   ("nontrivial:two-actors-inside-scopes", nh // 5), ("exit:raise", nh // 5), ("exit:base", nh // 10),
                   ("exit:return", nh // 5), ("enter:swap-mask", nh // 5), ("enter:overlay-mask", nh // 20),
                   ("enter:alias", nh // 10), ("swap-envpath", nh // 5), ("swap-defaulted-unset", nh // 5),
-                  ("spawn:inherit-from-inside-scope", nh // 20), ("plain-set:inside-scope", nh // 5),
+                  ("spawn:inherit-from-inside-scope", nh // 20), ("plain-set:inside-scope", nh // 8),
                   ("plain-del:inside-scope", nh // 10), ("op:ovset", nh // 10), ("depth:3", nh // 20),
                   ("plain-write-while-another-thread-has-it-swapped", nh // 20), ("cache:raw", nh // 10),
                   ("start-after-parent-changed", nh // 20), ("plain-set:own-swapped-key", nh // 40),
